@@ -318,6 +318,34 @@ def check_abf(run, exe, model, cases, scratch):
                     tie_ok = False
 
 
+def no_zero_length_runs(events, kinds):
+    """with stepZeroData a run of zero steps deposits a second hill with the step number of the state file and writes a
+    second, different state file with that step number: such runs are outside the premises of the theorems (steps_ok)
+    and are not generated.  kinds: event tag -> (walker key, 'step' | 'restart')"""
+    out = []
+    since = {}
+    skip_next_step_of = None
+    for ev in events:
+        k = kinds.get(ev[0])
+        if k is None:
+            out.append(ev)
+            continue
+        who = k[0](ev)
+        if k[1] == "restart":
+            if since.get(who, 0) < 2:
+                skip_next_step_of = who      # drop the restart and the repeated step that follows it
+                continue
+            since[who] = 0
+            out.append(ev)
+        else:
+            if skip_next_step_of == who:
+                skip_next_step_of = None
+                continue
+            since[who] = since.get(who, 0) + 1
+            out.append(ev)
+    return out
+
+
 # ==========================================================================================
 # file-based multiple-walker metadynamics, walkers sharing files directly
 # ==========================================================================================
@@ -371,8 +399,11 @@ def gen_meta(r, cid, big=False):
                 events.append(["s", w, lastbin[w]])
             else:
                 do_step(w)
+    szd = r.random() < 0.2
+    if szd:
+        events = no_zero_length_runs(events, {"s": (lambda e: e[1], "step"), "r": (lambda e: e[1], "restart")})
     return {"kind": "meta", "id": cid, "n": n, "nbins": NB, "hillfreq": hillfreq, "upfreq": upfreq,
-            "restartfreq": restartfreq, "lockstep": lock, "grids": r.random() < 0.7, "events": events}
+            "restartfreq": restartfreq, "lockstep": lock, "grids": r.random() < 0.7, "szd": szd, "events": events}
 
 
 def meta_primitives(case):
@@ -387,6 +418,8 @@ def meta_primitives(case):
     D = [[] for _ in range(n)]
     prims = []
     Dafter = []
+    state_n = [0] * n           # how many hills the state file of each walker holds
+    case["_state_n_after"] = []
     for ev in case["events"]:
         w = ev[1]
         p = []
@@ -398,7 +431,7 @@ def meta_primitives(case):
             rel0 = first[w]
             first[w] = False
             t[w] = nt
-            if (not rel0) and nt % case["hillfreq"] == 0:
+            if ((not rel0) or case.get("szd")) and nt % case["hillfreq"] == 0:
                 p.append(("dep", w, nt, ev[2]))
                 D[w].append((nt, ev[2]))
             if nt % case["upfreq"] == 0:
@@ -407,13 +440,16 @@ def meta_primitives(case):
             rf = case["restartfreq"][w]
             if rf > 0 and (not rel0) and nt % rf == 0:
                 p.append(("wstate", w, nt))
+                state_n[w] = len(D[w])
         else:
             p.append(("wstate", w, t[w]))
             p.append(("rrestart", w))
             p.append(("setup", w, t[w], bool(ev[2])))
+            state_n[w] = len(D[w])
             first[w] = True
         prims.append(p)
         Dafter.append([list(x) for x in D])
+        case["_state_n_after"].append(list(state_n))
     return prims, Dafter
 
 
@@ -496,6 +532,8 @@ def check_meta(run, exe, model, cases, scratch, fixflags="1 1"):
         nrest = sum(1 for e in c["events"] if e[0] == "r")
         run.dist("meta:restarts" if nrest else "meta:no-restart")
         run.dist("meta:useGrids-on" if c.get("grids", True) else "meta:useGrids-off")
+        if c.get("szd"):
+            run.dist("meta:stepZeroData")
         run.count(json.dumps([c["events"], c["restartfreq"], c["upfreq"], c["hillfreq"]]), True)
         run.sample({"kind": "meta", "n": n, "hillfreq": c["hillfreq"], "upfreq": c["upfreq"], "restartfreq": c["restartfreq"],
                     "lockstep": c["lockstep"], "events": c["events"][:14], "more_events": max(0, len(c["events"]) - 14)}, cap=4)
@@ -598,7 +636,7 @@ def check_meta(run, exe, model, cases, scratch, fixflags="1 1"):
                     # ---- completeness after an exchange: everything visible before this event is there
                     if did_share and snap[p]["state_step"] is not None and reclen:
                         S = snap[p]["state_step"]
-                        n_state = sum(1 for (it, _) in Dp if it <= S)
+                        n_state = c["_state_n_after"][k - 1][p] if k > 0 else 0
                         n_file = ((snap[p]["hills_size"] or 0) + 1) // reclen
                         if kpre < n_state + n_file:
                             sig = "meta:visible-hills-missing" + (":lockstep" if c["lockstep"] else ":async")
@@ -626,7 +664,11 @@ def check_meta(run, exe, model, cases, scratch, fixflags="1 1"):
                 irec = 0 if ipos <= 0 else (ipos + 1) // reclen if reclen and (ipos + 1) % reclen == 0 else -1
                 isum = {"sync": int(mir["in_sync"]), "S": int(mir["state_step"]), "pos": irec, "cont": show(cont)}
                 msum = {"sync": mm["sync"], "S": mm["S"], "pos": mm["pos"], "cont": show(counts_of(mm["cont"], NB))}
-                if isum != msum or not mq["ok"]:
+                if not mq["ok"] and c.get("szd") and isum == msum:
+                    # a run of zero steps with stepZeroData writes two different state files with one step number: outside the
+                    # premises of the theorems (steps_ok); the states are still compared
+                    run.dist("meta:szd-zero-length-run-outside-premises")
+                elif isum != msum or not mq["ok"]:
                     isum["pos_bytes"] = ipos
                     isum["reclen"] = reclen
                     run.mismatch("meta", {"case": c, "event": k, "reader": w, "peer": p}, isum, dict(msum, trace_ok=mq["ok"]))
@@ -687,8 +729,12 @@ def gen_view(r, cid, robust=False):
                 events.append(["pl", r.choice([None, None, 0, 5, 9, 10, 30, 60, 70])])
             else:
                 events.append(["pg", r.choice([None, None, 1, 2, 3, 4, 10, 20, 30])])
+    szd = r.random() < 0.2
+    if szd:
+        events = no_zero_length_runs(events, {"ps": (lambda e: "p", "step"), "pr": (lambda e: "p", "restart"),
+                                              "rs": (lambda e: "r", "step"), "rr": (lambda e: "r", "restart")})
     c = {"kind": "view", "id": cid, "n": 2, "nbins": NB, "hillfreq": hillfreq, "upfreq": upfreq,
-         "restartfreq": restartfreq, "robust": robust, "grids": r.random() < 0.7, "events": events}
+         "restartfreq": restartfreq, "robust": robust, "grids": r.random() < 0.7, "szd": szd, "events": events}
     if robust:
         c["late_register"] = r.random() < 0.7
         events.append(["pg", None])
@@ -731,6 +777,9 @@ def check_view(run, exe, model, cases, scratch, fixflags="1 1"):
         Dp_at = {}
         mid = False                # between the two halves of a state-file rewrite of P, as R sees it
         mid_step = 0
+        pn = 0                     # hills in P's state file; vn: in the state file that R can see
+        vn = 0
+        vn_at = {}
         inside = False             # (kept for the report) R has exchanged in such a window
         inside_at = {}
         for k, rec in enumerate(out):
@@ -739,6 +788,7 @@ def check_view(run, exe, model, cases, scratch, fixflags="1 1"):
             if ev[0] in ("ps", "pr", "ph", "pb") and mid:
                 toks.append("wa,%d" % mid_step)
                 mid = False
+                vn = pn
             if ev[0] == "pt":
                 toks.append("sv,%d" % (0 if rec["state_partial"] else 1))
             if ev[0] == "pl":
@@ -750,7 +800,7 @@ def check_view(run, exe, model, cases, scratch, fixflags="1 1"):
                 rel0 = first[who]
                 first[who] = False
                 t[who] = nt
-                if (not rel0) and nt % c["hillfreq"] == 0:
+                if ((not rel0) or c.get("szd")) and nt % c["hillfreq"] == 0:
                     D[who].append((nt, ev[1]))
                     if who == "p":
                         toks.append("d,%d,%d" % (nt, ev[1]))
@@ -760,18 +810,23 @@ def check_view(run, exe, model, cases, scratch, fixflags="1 1"):
                     if mid:
                         inside = True
                 if rfq[who] > 0 and (not rel0) and nt % rfq[who] == 0:
+                    if who == "p":
+                        pn = len(D["p"])
                     if who == "p" and len(ev) > 2 and ev[2] == "split":
                         toks.append("wb")
                         mid = True
                         mid_step = nt
                     else:
                         toks.append("w,%d" % nt if who == "p" else "o")
+                        if who == "p":
+                            vn = pn
             elif ev[0] == "pr":
                 # the controller presents the writer's files to the reader under fixed names: for the reader a restart of
                 # the writer with a new output prefix is a restart under the same names (new names: direct mode)
                 # (setup_output rewrites the list file and the registry record; what the reader sees of them is still what
                 # the controller shows)
                 toks += ["w,%d" % t["p"], "u,%d,0" % t["p"], "rv,%d" % rec["rv"], "lv,%d" % rec["lv"]]
+                pn = vn = len(D["p"])
                 first["p"] = True
             elif ev[0] == "rr":
                 toks += ["o", "r"]
@@ -783,6 +838,7 @@ def check_view(run, exe, model, cases, scratch, fixflags="1 1"):
                 qat[k] = sum(1 for x in toks if x == "q")
                 toks.append("q")
             Dp_at[k] = list(D["p"])
+            vn_at[k] = vn
             rec["Dr"] = list(D["r"])
             inside_at[k] = inside
             if bool(rec.get("mid")) != mid:
@@ -844,7 +900,7 @@ def check_view(run, exe, model, cases, scratch, fixflags="1 1"):
                     break
                 if shared_at.get(k) and reclen and rec.get("files_ok", True) and rec.get("view_state_step") is not None:
                     S = rec["view_state_step"]
-                    n_state = sum(1 for (it, _) in Dp if it <= S)
+                    n_state = vn_at[k]
                     n_file = (rec["view_hills_bytes"] + 1) // reclen
                     if kpre < n_state + n_file:
                         run.violation("view:visible-hills-missing" + (":exchange-inside-state-rewrite" if known_hole else ""), "after its exchange in event %d the reader holds %d hills of its peer (bins %s) although the "
@@ -868,7 +924,9 @@ def check_view(run, exe, model, cases, scratch, fixflags="1 1"):
                 irec = 0 if ipos <= 0 else (ipos + 1) // reclen if reclen and (ipos + 1) % reclen == 0 else -1
                 isum = {"sync": int(mir["in_sync"]), "S": int(mir["state_step"]), "pos": irec, "cont": show(cont)}
                 msum = {"sync": mm["sync"], "S": mm["S"], "pos": mm["pos"], "cont": show(counts_of(mm["cont"], NB))}
-                if isum != msum or not mq["ok"]:
+                if not mq["ok"] and c.get("szd") and isum == msum:
+                    run.dist("view:szd-zero-length-run-outside-premises")
+                elif isum != msum or not mq["ok"]:
                     isum["pos_bytes"] = ipos
                     run.mismatch("view", {"case": c, "event": k, "bytes": rec["view_hills_bytes"]}, isum, dict(msum, trace_ok=mq["ok"]))
                     tie_ok = False
